@@ -410,7 +410,7 @@ def _dump_helper_coeffs(f, data, spin=None):
         norb = data.mo.norbb
         coeff = data.mo.coeffsb[permutation] * signs.reshape(-1, 1)
         ener = data.mo.energiesb
-        irreps = data.mo.irreps[norb:] if data.mo.irreps is not None else ["a1g"] * norb
+        irreps = data.mo.irreps[data.mo.norba :] if data.mo.irreps is not None else ["a1g"] * norb
     else:
         raise DumpError("A spin must be specified", f)
 
